@@ -70,7 +70,7 @@ probe!(YSzh, NSzh, p_select_zero_hinted(r: usize, hp: usize, hr: usize) -> usize
 probe!(YMs, NMs, p_mem_size() -> usize, [MemSize], |s| s.mem_size(SizeFlags::default()));
 
 /// The structure under test, whatever its type.
-trait Dyn {
+pub(crate) trait Dyn {
     fn len(&self) -> Option<usize>;
     fn index(&self, i: usize) -> Option<bool>;
     fn count_ones(&self) -> Option<usize>;
@@ -315,7 +315,7 @@ fn anb<B: BitCount>(b: B) -> ANB<B> { b.into() }
 fn r9<B: AsRef<[usize]> + BitLength>(b: B) -> R9<B> { Rank9::new(b) }
 
 /// Builds the stack named by the layer names (bottom-up) over `bv`.
-fn build(key: &str, l: &[Value], bv: BV) -> Box<dyn Dyn> {
+pub(crate) fn build(key: &str, l: &[Value], bv: BV) -> Box<dyn Dyn> {
     match key {
         "" => own(bv),
         "anb" => own(anb(bv)),
